@@ -91,7 +91,7 @@ class C05(Prop):
     level_text = 'Generated layer DAGs with per-test hooks on any subset and histories of tests of every outcome kind (incl. --repeat/--shuffle) are run through the real Runner; an invariant over the pid-tagged trace checks once-per-layer, bases-first, mirrored tear-down and per-layer balance at every event.'
     level_note = 'Trusts the world runtime (ztv/runtime.py) to log the layer a hook is called on; only Python 3.12.1 behaviour of unittest is exercised.'
     rule = ('Hypothesis worlds: layer DAG (<=5 layers, class/instance, any hook subset), 1-2 modules with nested '
-            'suites, tests of every outcome kind, --repeat 1..3, optional shuffle; run in-process; oracle over the '
+            'suites, tests of every outcome kind, --repeat 1..3, optional shuffle, 1/6 of the cases in post-mortem mode (-D, pdb scripted); run in-process; oracle over the '
             'trace of testSetUp/testTearDown/test phases. Non-trivial = some test has >=2 layers with per-test '
             'hooks in its stack AND the world contains a non-pass outcome. Distinct by hash of (spec, options).')
     assumptions = ('hooks log the layer they are called on; class layers inherit hooks (runner uses hasattr)',
